@@ -186,6 +186,17 @@ def make(i, base_seed, tier):
                 old, new = (bytes([l_]) + bytes(yr.getrandbits(8) for _ in range(4)) for l_ in (l0, l1))
             ops.insert(yr.randint(0, len(ops)), {"op": "readdress", "pipe": q, "old": old.hex(), "new": new.hex(), "lead_us": yr.randint(0, 900),
                                                  "plen": yr.randint(1, 32), "after": [hx(common.rand_payload(yr, yr.randint(1, 32))) for _ in range(yr.randint(0, 2))]})
+    zr = stream(seed, "ext3")
+    if not grid and not faults and not any(o["op"] in ("turn", "readdress") for o in ops):
+        if zr.random() < 0.15:
+            # the receiving node's MCU restarts (watchdog, brown-out of the MCU only): its radio kept power and registers, the
+            # application builds a new driver object and configures the link as before
+            ops.insert(zr.randint(0, len(ops)), {"op": "restart"})
+        if cfg["dyn"] and cfg["auto_ack"] and cfg["tx"]["cls"] == "full" and cfg["rx"]["cls"] == "full" and "alt" not in cfg and zr.random() < 0.15:
+            # a node that has an unread payload in its radio answers with send(send_only=True) while its peer acknowledges with an
+            # ACK payload: both end up in its RX FIFO, in that order, and send() says True
+            ops.insert(zr.randint(0, len(ops)), {"op": "so_ackpl", "d1": hx(common.rand_payload(zr, zr.randint(1, 32))), "d2": hx(common.rand_payload(zr, zr.randint(1, 32))),
+                                                 "ap": hx(common.rand_payload(zr, zr.randint(1, 32)))})
     mode = "conc" if (tier == "thorough" and not grid and rng.random() < 0.4) else "seq"
     kr = stream(seed, "knobs")
     scn = {"seed": seed, "cfg": cfg, "ops": ops, "faults": faults, "mode": mode,
@@ -313,6 +324,91 @@ def _run(scn, cfg, w, res):
                 expected.extend(back)
                 outstanding = len(back)
             continue
+        if op["op"] == "restart":
+            if conc or not fwd or kept or id(tx) in stale:
+                continue
+            drain_all()
+            outstanding = 0
+            sim.log("call", "R", "restart")
+            lite_ = cfg["rx"]["cls"] == "lite"
+            try:
+                rx = (common.RF24Lite if lite_ else common.RF24)(*w.bus(rr, mcu=rx_mcu if conc else tx_mcu, backend=cfg["rx"]["backend"]))
+                common.apply_common(rx, cfg, lite_)
+                if state.get("crc") is not None and not lite_:
+                    rx.crc = state["crc"]      # (the link's CRC length was changed at run time: the application configures what is in force)
+                if cfg.get("ackpl"):
+                    rx.ack = True
+                n_ = cfg["aw"] if cfg.get("trunc_addr") else 5
+                if cfg["pipe"] >= 2:
+                    rx.open_rx_pipe(1, unhx(cfg["p1"])[:n_])
+                rx.open_rx_pipe(cfg["pipe"], unhx(cfg["addr"])[:n_])
+                if cfg.get("alt"):
+                    if cfg["alt"]["pipe"] >= 2 and cfg["pipe"] < 2 and cfg["pipe"] != 1:
+                        rx.open_rx_pipe(1, unhx(cfg["p1"])[:n_])
+                    rx.open_rx_pipe(cfg["alt"]["pipe"], unhx(cfg["alt"]["addr"])[:n_])
+                rx.listen = True
+            except SimAbort:
+                raise
+            except Exception as e:
+                res.add("result", {"kind": "restart_raised", "exc": type(e).__name__}, "a new driver object on the running radio raised %r" % (e,))
+                return
+            sim.count("receiver_mcu_restarted" + ("" if cfg["rx"]["plus"] else "_nonplus"))
+            continue
+        if op["op"] == "so_ackpl":
+            if conc or not fwd or kept or rev_addr is None or id(tx) in stale or not (cfg["dyn"] and cfg["auto_ack"]):
+                continue
+            drain_all()
+            outstanding = 0
+            sim.log("call", "T", "so_ackpl")
+            d1, d2, ap = unhx(op["d1"]), unhx(op["d2"]), unhx(op["ap"])
+            if not cfg.get("ackpl"):
+                tx.ack = True
+                rx.ack = True
+            r1 = tx.send(d1)                         # arrives at the peer and stays unread there
+            tx.flush_rx()
+            tx.listen = True                         # the old transmitter listens on its own pipe, an ACK payload armed
+            tx.load_ack(ap, cfg["rpipe"])
+            rx.listen = False
+            rx.open_tx_pipe(rev_addr)
+            r2 = rx.send(d2, send_only=True)
+            got_b = []
+            rx.listen = True
+            for _ in range(6):
+                if not rx.available():
+                    break
+                p_ = rx.pipe
+                x_ = rx.read()
+                got_b.append((p_, None if x_ is None else bytes(x_)))
+            got_a = []
+            for _ in range(6):
+                if not tx.available():
+                    break
+                p_ = tx.pipe
+                x_ = tx.read()
+                got_a.append((p_, None if x_ is None else bytes(x_)))
+            tx.listen = False
+            tx.open_tx_pipe(fwd_addr if cur_pipe == cfg["pipe"] else unhx(cfg["alt"]["addr"])[: cfg["aw"] if cfg.get("trunc_addr") else 5])
+            if not cfg.get("ackpl"):
+                tx.ack = False
+                rx.ack = False
+            sim.count("send_only_with_unread_payload_and_ack_payload")
+            res.nontrivial = True
+            if r1 is False or r1 is None:
+                res.add("result", {"kind": "send_reported_failure"}, "send() on a working link returned %r" % (r1,))
+                return
+            if r2 is not True:
+                res.add("result", {"kind": "send_only_result", "type": type(r2).__name__},
+                        "send(send_only=True) returned %r; an unread payload %s and the peer's ACK payload %s belong in the RX FIFO" % (r2, hx(d1)[:16], hx(ap)[:16]))
+            if got_b != [(cur_pipe, d1), (0, ap)]:
+                res.add("delivered", {"kind": "missing_payload" if (cur_pipe, d1) not in got_b else "wrong_order_or_extra", "step": "so_ackpl"},
+                        "after send(send_only=True) the node's read() gave %r, expected the unread payload (pipe %d, %s) and then the ACK payload (pipe 0, %s)"
+                        % ([(p_, hx(x_)[:16] if x_ is not None else None) for p_, x_ in got_b], cur_pipe, hx(d1)[:16], hx(ap)[:16]))
+            if got_a != [(cfg["rpipe"], d2)]:
+                res.add("delivered", {"kind": "reverse_payload", "step": "so_ackpl"}, "the peer read %r, expected (pipe %d, %s)"
+                        % ([(p_, hx(x_)[:16] if x_ is not None else None) for p_, x_ in got_a], cfg["rpipe"], hx(d2)[:16]))
+            if res.violations:
+                return
+            continue
         if op["op"] == "reconf":
             if conc:
                 continue
@@ -321,6 +417,7 @@ def _run(scn, cfg, w, res):
             sim.log("call", "T", "reconf", op["crc"], op["excursion"])
             for side in op["order"]:
                 (tx if side == "t" else rx).crc = op["crc"]
+            state["crc"] = op["crc"]
             if op["excursion"] == "rx":
                 rx.listen = False
                 sim.advance(int(0.4 * MS))
